@@ -42,7 +42,7 @@ def cnf_text(shape, rng, sep='\n    '):
 
 
 SITES = ['rule', 'when_block', 'guard_block', 'type_block', 'filter', 'rule_when',
-         'param_call', 'param_call_msg', 'named_ref', 'named_ref_not', 'some_block', 'when_block_cond', 'type_block_cond']
+         'param_call', 'param_call_msg', 'param_call_nested', 'param_call_nested_nomsg', 'named_ref', 'named_ref_not', 'some_block', 'when_block_cond', 'type_block_cond']
 
 
 def site_rule(site, name, body):
@@ -62,6 +62,12 @@ def site_rule(site, name, body):
         return 'rule callee_%s(p) {\n    %s\n}\nrule %s {\n  callee_%s(a)\n}' % (name, body, name, name)
     if site == 'param_call_msg':
         return 'rule callee_%s(p) {\n    %s\n}\nrule %s {\n  callee_%s(a) <<custom message>>\n}' % (name, body, name, name)
+    if site == 'param_call_nested':
+        return ('rule inner_%s(q) {\n    %s\n}\nrule callee_%s(p) {\n  inner_%s(%%p) <<inner message>>\n}\nrule %s {\n  callee_%s(a) <<outer message>>\n}'
+                % (name, body, name, name, name, name))
+    if site == 'param_call_nested_nomsg':
+        return ('rule inner_%s(q) {\n    %s\n}\nrule callee_%s(p) {\n  inner_%s(%%p) <<inner message>>\n}\nrule %s {\n  callee_%s(a)\n}'
+                % (name, body, name, name, name, name))
     if site == 'named_ref':
         return 'rule %s {\n  dep_%s\n}\nrule dep_%s {\n    %s\n}' % (name, name, name, body)
     if site == 'named_ref_not':
@@ -108,7 +114,7 @@ def observed(site, rule_rec):
     if site == 'rule_when':
         w = find(rule_rec, 'RuleCondition')
         return w[1], rule_st
-    if site in ('param_call', 'param_call_msg'):
+    if site in ('param_call', 'param_call_msg', 'param_call_nested', 'param_call_nested_nomsg'):
         for ch in ct.L(rule_rec[3]):
             w = find(ch, 'RuleCheck')
             if w is not None:
@@ -128,7 +134,7 @@ def observed(site, rule_rec):
 
 
 def expected_rule(site, st):
-    if site in ('rule', 'when_block', 'guard_block', 'type_block', 'param_call', 'param_call_msg', 'some_block'):
+    if site in ('rule', 'when_block', 'guard_block', 'type_block', 'param_call', 'param_call_msg', 'param_call_nested', 'param_call_nested_nomsg', 'some_block'):
         return st
     if site == 'named_ref':
         return 'PASS' if st == 'PASS' else 'FAIL'
@@ -229,16 +235,66 @@ def generated(ctx, n):
     return len(distinct)
 
 
+def fold_fps(l):
+    return 'FAIL' if 'F' in l else ('PASS' if 'P' in l else 'SKIP')
+
+
+def fold_pfs(l):
+    return 'PASS' if 'P' in l else ('FAIL' if 'F' in l else 'SKIP')
+
+
+def aggregation(ctx, maxn):
+    """aggregation ACROSS VALUES: every tuple of per-value body statuses (PASS / FAIL / SKIP) for a type block over several
+    resources, a block over several values (all / some), a filter over several elements, and the rules of a file"""
+    import itertools
+    BODY = 'when st != "S" {\n      st == "P"\n    }'
+    pairs, meta = [], []
+    for n_ in range(1, maxn + 1):
+        for combo in itertools.product('PFS', repeat=n_):
+            items = [{'st': c, 'i': i} for i, c in enumerate(combo)]
+            doc = {'items': items, 'Resources': {'r%d' % i: dict(it, Type='AWS::X::Y') for i, it in enumerate(items)}}
+            for c in combo:
+                doc['st_' + c] = c
+            rules = {
+                'type_block': ('rule t {\n  AWS::X::Y {\n    %s\n  }\n}\n' % BODY, fold_fps(combo)),
+                'block_all': ('rule t {\n  items[*] {\n    %s\n  }\n}\n' % BODY, fold_fps(combo)),
+                'block_some': ('rule t {\n  some items[*] {\n    %s\n  }\n}\n' % BODY, fold_pfs(combo)),
+                'block_filtered': ('rule t {\n  items[ i >= 0 ] {\n    %s\n  }\n}\n' % BODY, fold_fps(combo)),
+                'file': (''.join('rule f%d {\n  when items[%d].st != "S" {\n    items[%d].st == "P"\n  }\n}\n' % (i, i, i) for i in range(n_)), fold_fps(combo)),
+            }
+            for site, (text, want) in rules.items():
+                pairs.append({'rules': text, 'data': json.dumps(doc)}); meta.append((site, ''.join(combo), want))
+    out, errs = corr.run(pairs, ctx.wd, 'c02agg', loader='json', expr='({check}, wf_impl i{i})')
+    if errs:
+        raise ToolingError('model evaluation failed: %r' % (errs[:1],))
+    n = 0
+    for (site, combo, want), o, pair in zip(meta, out, pairs):
+        info = {'class': 'aggregation', 'site': site, 'values': combo, 'rules': pair['rules'], 'data': pair['data']}
+        if o['kind'] != 'compared':
+            raise ToolingError('aggregation case not compared: %s %s' % (site, o['kind']))
+        n += 1
+        res = o.get('result')
+        got = res[1] if res and res[0] == 'Ok' else str(res)[:80]
+        if got != want:
+            ctx.failing('%s over values with body statuses %s: status %s, the statement requires %s' % (site, combo, got, want), info, found=True)
+        elif not o['verdict'].startswith('(VAgree, WfOk'):
+            ctx.failing('%s over %s: model and implementation disagree (%s)' % (site, combo, o['verdict']), dict(info, **{'class': 'eval-correspondence'}), found=False)
+    ctx.coverage['aggregation_cases'] = n
+    ctx.coverage['evaluations'] += len(pairs)
+    return n
+
+
 def run(ctx):
     ctx.build()
     pr = ctx.proofs('C02')
+    n0 = aggregation(ctx, 4 if ctx.tier == 'thorough' else 3)
     if ctx.tier == 'thorough':
         n1 = exhaustive_cnf(ctx, 3, 3) if os.environ.get('VERIF_C02_FULL') else exhaustive_cnf(ctx, 3, 2)
         n2 = generated(ctx, 4000)
     else:
         n1 = exhaustive_cnf(ctx, 2, 2)
         n2 = generated(ctx, 600)
-    ctx.coverage['distinct_nontrivial'] = n1 + n2
+    ctx.coverage['distinct_nontrivial'] = n0 + n1 + n2
     ctx.coverage['rule'] = ('every CNF shape (lines x alternatives, leaves forced to PASS/FAIL/SKIP) at six call sites, all distinct; '
                             'generated programs x documents from tools/gv/gen.py seeded by VERIF_SEED, counted distinct when the '
                             '(rules, data) text is new and the implementation produced a record tree')
